@@ -1,0 +1,112 @@
+//go:build verif
+
+package extractor
+
+// Contracts for govc (see /verif/DESIGN.md, C01 / C02 / C05). Comment-only file.
+
+// The counters, the per-worker context and the channel field are only written here.
+//@ private Extractor writers (*extractorInstance).processLineSync, New
+//@ private SliceSpaceExpressionContext writers (*extractorInstance).processLineSync, (*Extractor).asyncWorker
+//@ private Config writers New
+//@ private extractorInstance writers (*Extractor).asyncWorker
+//@ atomicfield Extractor.readLines, Extractor.matchedLines, Extractor.ignoredLines
+
+// ---- opaque collaborators (matcher, expression stages, ignore set) ----
+
+// wfIdx(ix, n): every (start, end) pair of a match index slice is either absent (negative) or
+// a sub-range of a line of length n. This is regexp's FindSubmatchIndex contract; dissect proves
+// it for its own result (C12).
+//@ pred wfIdx(ix, n) := forall i: int :: 0 <= i && i + 1 < len(ix) && i % 2 == 0 ==> (ix[i] < 0 || ix[i + 1] < 0 || (ix[i] <= ix[i + 1] && ix[i + 1] <= n))
+
+//@ iface rare/pkg/matchers.Matcher.FindSubmatchIndex
+//@   params (this, b)
+//@   modifies world
+//@   ensures [assumed-wf] wfIdx(result, len(b))
+//@ iface rare/pkg/matchers.Matcher.SubexpNameTable
+//@   params (this)
+//@   modifies world
+//@ iface rare/pkg/matchers.Factory.CreateInstance
+//@   params (this)
+//@   modifies world
+//@   ensures [assumed-nonnil] result != nil
+// (evaluating expressions does not write int slices that existed before the call: the match
+// indices handed over inside the context stay what the matcher returned)
+//@ iface rare/pkg/extractor.IgnoreSet.IgnoreMatch
+//@   params (this, context)
+//@   modifies world
+//@   ensures [assumed-int-frame] forall a: int :: forall i: int :: allocated_at_entry(a) ==> intat(a, i) == old(intat(a, i))
+//@ extern rare/pkg/expressions.(*CompiledKeyBuilder).BuildKey
+//@   params (s, context)
+//@   requires s != nil
+//@   modifies world
+
+// ---- C02: group lookup ----
+//@ func (*SliceSpaceExpressionContext).GetMatch
+//@   requires wfIdx(s.indices, len(s.linePtr))
+//@   pure
+//@   ensures [group] 0 <= idx && idx < 4611686018427387904 && 2 * idx + 1 < len(s.indices) && s.indices[2 * idx] >= 0 && s.indices[2 * idx + 1] >= 0 ==> result == s.linePtr[s.indices[2 * idx]:s.indices[2 * idx + 1]]
+//@   ensures [absent] 0 <= idx && idx < 4611686018427387904 && !(2 * idx + 1 < len(s.indices) && s.indices[2 * idx] >= 0 && s.indices[2 * idx + 1] >= 0) ==> result == ""
+//@   ensures [negative] idx < 0 && idx > -4611686018427387904 ==> result == ""
+
+// ---- C01: classification of one line ----
+//@ pred inc64(new, old) := new == (old + 1) % 18446744073709551616
+//@ func (*extractorInstance).processLineSync
+//@   requires s.Extractor != nil && s.matcher != nil && s.context != nil && s.Extractor.keyBuilder != nil
+//@   modifies world
+//@   ensures [read-once] inc64(s.Extractor.readLines, old(s.Extractor.readLines))
+//@   ensures [one-class] (result1 && inc64(s.Extractor.matchedLines, old(s.Extractor.matchedLines)) && s.Extractor.ignoredLines == old(s.Extractor.ignoredLines)) || (!result1 && s.Extractor.matchedLines == old(s.Extractor.matchedLines) && inc64(s.Extractor.ignoredLines, old(s.Extractor.ignoredLines))) || (!result1 && s.Extractor.matchedLines == old(s.Extractor.matchedLines) && s.Extractor.ignoredLines == old(s.Extractor.ignoredLines))
+//@   ensures [matched-key] result1 ==> len(result0.Extracted) > 0
+//@   ensures [identity] result1 ==> result0.LineNumber == lineNum && result0.Source == source && ref(result0.bLine) == ref(line) && off(result0.bLine) == off(line) && len(result0.bLine) == len(line) && len(result0.Line) == len(line)
+//@   ensures [same-fields] s.Extractor == old(s.Extractor) && s.context == old(s.context) && s.matcher == old(s.matcher)
+//@   assert at "extractedKey := s.keyBuilder.BuildKey(expContext)" : wfIdx(expContext.indices, len(expContext.linePtr)) && expContext.source == source && expContext.lineNum == lineNum
+
+// ---- C01 / C02 / C05: one worker ----
+// Thread-local view: wg_done(wg) counts this goroutine's own Done calls, chan_sends its own sends.
+// Protocol premises discharged here: the worker signals Done exactly once, on every way out
+// (deferred), and never sends after that; it never closes the channel.
+//@ ghost got_lines(rare/pkg/extractor.Extractor) int
+//@ ghost sent_matches(rare/pkg/extractor.Extractor) int
+//@ func (*Extractor).asyncWorker
+//@   requires s != nil && wg != nil && s.matcherFactory != nil && s.keyBuilder != nil && s.readChan != nil
+//@   requires !chan_closed(s.readChan) && wg_done(wg) == 0 && got_lines(s) == 0 && sent_matches(s) == 0
+//@   modifies world
+//@   ensures [done-once] wg_done(wg) == 1
+//@   ensures [never-closes] !chan_closed(s.readChan)
+//@   ensures [all-read] (s.readLines - old(s.readLines) - got_lines(s)) % 18446744073709551616 == 0
+//@   ensures [all-forwarded] (s.matchedLines - old(s.matchedLines) - sent_matches(s)) % 18446744073709551616 == 0
+//@   ghostset at "for idx, str := range batch.Batch" : got_lines(s) := old(got_lines(s)) + len(batch.Batch)
+//@   ghostset at "s.readChan <- matchBatch" : sent_matches(s) := old(sent_matches(s)) + len(matchBatch)
+//@   assert at "s.readChan <- matchBatch" : wg_done(wg) == 0 && len(matchBatch) > 0
+//@   loop 1 invariant wg_done(wg) == 0 && !chan_closed(s.readChan) && si.Extractor == s && si.matcher != nil && si.context != nil && s.keyBuilder != nil
+//@   loop 1 invariant (s.readLines - old(s.readLines) - got_lines(s)) % 18446744073709551616 == 0
+//@   loop 1 invariant (s.matchedLines - old(s.matchedLines) - sent_matches(s)) % 18446744073709551616 == 0
+//@   loop 2 invariant wg_done(wg) == 0 && !chan_closed(s.readChan) && si.Extractor == s && si.matcher != nil && si.context != nil && s.keyBuilder != nil
+//@   loop 2 invariant (s.readLines - old(s.readLines) - got_lines(s) + len(batch.Batch) - (rangeindex + 1)) % 18446744073709551616 == 0
+//@   loop 2 invariant (s.matchedLines - old(s.matchedLines) - sent_matches(s) - len(matchBatch)) % 18446744073709551616 == 0
+//@   loop 2 invariant len(matchBatch) <= rangeindex + 1 && rangelen() == len(batch.Batch) && rangeindex + 1 <= len(batch.Batch)
+//@   loop 2 invariant forall j in [0, len(matchBatch)) :: matchBatch[j].Source == batch.Source && len(matchBatch[j].Extracted) > 0
+
+// ---- C05: start-up and shut-down of the worker pool ----
+// Premises discharged here: every worker is started after its wg.Add(1); the channel is closed
+// exactly once, by the closer goroutine, only after wg.Wait() returned.
+//@ extern rare/pkg/expressions/funclib.NewKeyBuilder
+//@   modifies world
+//@   ensures [assumed-nonnil] result != nil
+//@ extern rare/pkg/expressions.(*KeyBuilder).Compile
+//@   params (s, template)
+//@   modifies world
+//@   ensures [assumed-nil-or-ok] (result1 == nil) ==> result0 != nil
+//@ func (*Config).getWorkerCount
+//@   pure
+//@   ensures result >= 1 && (s.Workers >= 1 ==> result == s.Workers)
+//@ func New
+//@   requires config != nil && config.Matcher != nil
+//@   modifies world
+//@   ensures result1 == nil ==> result0 != nil && result0.readChan != nil && result0.keyBuilder != nil
+//@   assert at "go extractor.asyncWorker(&wg, inputBatch)" : old(go_started(0)) + wg_added(addrof(wg)) == go_started(0) + 1 && !chan_closed(extractor.readChan)
+//@   loop 1 invariant wg_added(addrof(wg)) == i && go_started(0) == old(go_started(0)) + i && i >= 0 && !wg_waited(addrof(wg)) && !chan_closed(extractor.readChan) && chan_cap(extractor.readChan) == 5
+//@   loop 1 invariant extractor.readChan != nil && extractor.keyBuilder != nil && extractor.matcherFactory != nil
+//@ func New$1
+//@   requires extractor.readChan != nil && !chan_closed(extractor.readChan) && !wg_waited(wg)
+//@   assert at "close(extractor.readChan)" : wg_waited(wg)
+//@   ensures chan_closed(extractor.readChan)
